@@ -59,3 +59,8 @@ add("C16", "model_checking",
     "Sequential refinement of every shipped in-memory store against a reference model written from the tmstore interface comments: a state reached by 0-2 (quick) / 0-3 (thorough) operations with symbolic heights, rounds, keys, hashes and signatures, then every method with symbolic arguments; results, error types (DoubleActionError, PubKeyChangedError, FinalizationOverwriteError, OverwriteError, RoundUnknownError, HeightUnknownError, ErrStoreUninitialized, *AlreadyExist, No*Hash, count mismatch) and reloaded values must equal the model, for every map iteration order inside LoadRoundState; plus independence of stored values from later reuse of the caller's slices where the store copies.",
     "The CONCURRENT half of the property (linearizability under interleavings) is NOT decided by this check: every method body is one critical section under the store mutex, and plain data races are invisible to the cooperative scheduler, so only the sequential contract is claimed. Domain: heights >= 1, non-empty signatures (zero values are used as 'absent' sentinels by the stores; recorded as an observation in DESIGN.md). SQLite stores are outside.",
     "symbolic execution of go/ssa + SMT; refinement against a reference model", "§5 C16")
+
+add("C05", "model_checking",
+    "A real Mirror (real kernel goroutine, shipped in-memory stores) handles one prevote or precommit message for the voting round, next round, a future round, a future height or height 0, with right or wrong validator-set hash, 1-2 block entries (known, nil, unknown hash) and 1-2 signatures each whose key ids are member / out-of-range / malformed and whose validity is an uninterpreted predicate (forged, foreign, wrong-target and honest signatures are all points of that predicate), optionally after a valid vote. Afterwards every signature found in the voting/committing views and in the round store is re-verified through the same predicate for exactly the kind/height/round/hash it is filed under, and a message with no verifying member signature must leave the views unchanged and not be reported as accepted.",
+    "Bounds: 2 validators, one message (plus an optional earlier valid vote), deterministic cooperative schedule between caller and kernel goroutine (concurrent handlers are not explored). Gossip output is not inspected separately (it is a clone of the views). A wrong validator-set hash on a FUTURE round of the voting height is not rejected by the code; the signatures must still verify (recorded as an observation). BLS proofs outside.",
+    "symbolic execution of go/ssa + SMT with uninterpreted verification; real mirror+kernel threads", "§5 C05")
